@@ -122,10 +122,17 @@ def execute(offers, src, tgt, via, order=None):
             raise MachineryError("W0 case after late registration")
     mgr = AdaptationManager()
     idx = order if order is not None else list(range(len(offers)))
-    for k in idx:
+    # the "...2" entry points assign twice: once with only the first half of the offers registered, then - after the
+    # remaining offers were registered - the SAME object again; the second assignment is judged (full configuration)
+    later = idx[len(idx) // 2:] if via.endswith("2") else []
+
+    def reg(k):
         o = offers[k]
         mgr.register_offer(AdaptationOffer(factory=make_factory(k + 1, o["to"], o["ok"]),
                                            from_protocol=fam[o["from"]], to_protocol=fam[o["to"]]))
+    for k in idx:
+        if k not in later:
+            reg(k)
     obj = fam[src]()
     target = fam[tgt]
     sentinel = object()
@@ -142,15 +149,24 @@ def execute(offers, src, tgt, via, order=None):
                 r = None
         else:
             set_global_adaptation_manager(mgr)
-            h = trait_holder(via, tgt)()
+            kind = via.rstrip("2")
+            h = trait_holder(kind, tgt)()
+            if via.endswith("2"):
+                try:
+                    h.x = obj
+                except TraitError:
+                    pass
+                for k in later:
+                    reg(k)
             h.x = obj
             r = h.x
-            if via == "adaptsto":
+            if kind == "adaptsto":
+                # the attribute holds the original object, its shadow x_ the adapter
                 if r is not obj:
                     result = "adaptsto-did-not-store-original"
+                    r = None
                 else:
-                    result = "adaptable"
-                r = None
+                    r = h.x_
         if r is None:
             pass
         elif r is sentinel:
@@ -166,7 +182,7 @@ def execute(offers, src, tgt, via, order=None):
     return {"offers": offers, "src": src, "tgt": tgt, "via": via, "result": result, "chain": chain, "isinst": isinst}
 
 
-VIAS = ["adapt", "adapt_default", "supports_protocol", "supports", "adaptsto"]
+VIAS = ["adapt", "adapt_default", "supports_protocol", "supports", "adaptsto", "supports2", "adaptsto2"]
 
 
 def case_fn(st, rep):
@@ -246,7 +262,9 @@ def run(rep, tier, seed):
                     "configuration (%s); every configuration of the enumeration instantiated with real classes, "
                     "recording factories and a fresh AdaptationManager (adapt / adapt with default / supports_protocol / "
                     "Supports / AdaptsTo, both registration orders), plus %d random larger configurations (3-7 offers, "
-                    "conditional factories, cycles, late ABC registration); every record judged by TLC" %
+                    "conditional factories, cycles, late ABC registration); Supports / AdaptsTo also by a second assignment of the same "
+                    "object after further offers were registered (the adapter is read from the AdaptsTo shadow); every "
+                    "record judged by TLC" %
                     ("AdaptationMC_%s.cfg" % tier, len(l0) + len(l1)))
         rep.exhaustive = True
         rep.extra["configurations_from_tlc"] = tot["ncases"]
